@@ -2,6 +2,7 @@ package hostile
 
 import (
 	"context"
+	"encoding/base64"
 	"encoding/hex"
 	"fmt"
 	"runtime/debug"
@@ -50,7 +51,7 @@ var pbPaths = []string{"hash", "id", "payload", "next", "next[0]", "v", "clock",
 
 func genC12(t *rapid.T) c12Prog {
 	p := c12Prog{
-		Shape:  rapid.SampledFrom([]string{"entry", "entry", "entry", "manifest", "pb-entry", "pb-manifest", "arbitrary"}).Draw(t, "shape"),
+		Shape:  rapid.SampledFrom([]string{"entry", "entry", "entry", "entry-linkkey", "entry-linkkey", "manifest", "pb-entry", "pb-manifest", "arbitrary"}).Draw(t, "shape"),
 		Sorted: rapid.IntRange(0, 3).Draw(t, "sorted") > 0,
 		NLinks: rapid.IntRange(0, 3).Draw(t, "nlinks"),
 		Pos:    rapid.IntRange(0, 5).Draw(t, "pos"),
@@ -59,6 +60,9 @@ func genC12(t *rapid.T) c12Prog {
 		Loader: rapid.IntRange(0, 1).Draw(t, "loader"),
 	}
 	paths := entryPaths
+	if p.Shape == "entry-linkkey" {
+		paths = append(append([]string{}, entryPaths...), "enc_links", "enc_links_nonce", "enc_links", "enc_links_nonce", "enc_links_nonce")
+	}
 	switch p.Shape {
 	case "manifest", "pb-manifest":
 		paths = manifestPaths
@@ -107,6 +111,23 @@ func sameKind(path string) *rapid.Generator[Val] {
 		return rapid.SampledFrom([]Val{Map(), Map(KV{"id", Str("")}), Map(KV{"publicKey", Str("00")}), Map(KV{"id", Str("zz")}, KV{"publicKey", Str("00")})})
 	case "hash":
 		return rapid.SampledFrom([]Val{Null(), Str(""), Str("Qm"), Str("bafyreigh2akiscaildc"), Link(1), Int(1)})
+	case "enc_links", "enc_links_nonce":
+		// base64 of byte strings around every length the cipher cares about (nonce 24, overhead 16), and non-base64
+		return rapid.Custom(func(t *rapid.T) Val {
+			n := rapid.SampledFrom([]int{0, 1, 15, 16, 17, 23, 24, 25, 31, 32, 40, 48, 100}).Draw(t, "len")
+			b := make([]byte, n)
+			for i := range b {
+				b[i] = byte(rapid.IntRange(0, 255).Draw(t, "byte"))
+			}
+			enc := base64.StdEncoding.EncodeToString(b)
+			switch rapid.IntRange(0, 5).Draw(t, "variant") {
+			case 0:
+				return Str(enc + "=")
+			case 1:
+				return Str("!" + enc)
+			}
+			return Str(enc)
+		})
 	default: // string fields
 		return rapid.Map(rapid.SampledFrom([]string{"", "0", "00", "zz", "04", "3044", "ff\xff", "\xff\xfe", "verif-log", "other-log", "orbitdb", "A",
 			"04d171dd56208cc1397b1c8b2aee7b91cbdc3aa18a31cec07f9377d08b698658ee8868810747db562e590e3a74971feec0a706e0d6fed77057793c8c9f0a2847ba",
@@ -232,6 +253,22 @@ func trimStack(b []byte) string {
 var healthyOnce struct {
 	store *fakeipfs.Store
 	e     iface.IPFSLogEntry
+}
+
+var healthyLink iface.IPFSLogEntry
+
+// healthyLinkEntry is a valid entry written with the link-key codec (it carries encrypted links).
+func healthyLinkEntry(tb ev.TB) iface.IPFSLogEntry {
+	if healthyLink == nil {
+		st := fakeipfs.NewStore()
+		e, err := entry.CreateEntryWithIO(context.Background(), st.API(), world.Identity(0), &entry.Entry{LogID: "verif-log", Payload: []byte("healthy-link"),
+			Next: []cid.Cid{PoolCid(1), PoolCid(2)}, Refs: []cid.Cid{PoolCid(3)}, Clock: entry.NewLamportClock(world.Identity(0).PublicKey, 4)}, nil, world.IO(world.CodecLinkKey, 0))
+		if err != nil {
+			tb.Fatalf("harness: %v", err)
+		}
+		healthyLink = e
+	}
+	return healthyLink
 }
 
 func healthyEntry(tb ev.TB) (iface.IPFSLogEntry, *fakeipfs.Store) {
@@ -365,6 +402,11 @@ func runC12(tb ev.TB, p c12Prog) ev.Result {
 	switch p.Shape {
 	case "entry":
 		val = baseEntryVal(healthy, p.NLinks, false)
+	case "entry-linkkey":
+		hl := healthyLinkEntry(tb)
+		val = baseEntryVal(hl, 0, false)
+		val.Set("enc_links", Str(hl.GetAdditionalData()[iface.KeyEncryptedLinks]))
+		val.Set("enc_links_nonce", Str(hl.GetAdditionalData()[iface.KeyEncryptedLinksNonce]))
 	case "pb-entry":
 		val = baseEntryVal(healthy, p.NLinks, true)
 	case "manifest", "pb-manifest":
@@ -534,6 +576,12 @@ func runC12(tb ev.TB, p c12Prog) ev.Result {
 		safely(tb, "legacy loaders of the hostile block itself", func() {
 			_, _ = ipfslog.NewFromMultihash(ctx, st.API(), world.Identity(0), hc, &ipfslog.LogOptions{ID: "verif-log", IO: pbIO}, &ipfslog.FetchOptions{})
 			_, _ = ipfslog.NewFromEntryHash(ctx, st.API(), world.Identity(0), hc, &ipfslog.LogOptions{ID: "verif-log", IO: pbIO}, &ipfslog.FetchOptions{})
+		})
+	}
+	// the loaders of a reader that holds the link key decode the block on fetch goroutines too
+	if p.Shape == "entry-linkkey" {
+		safely(tb, "NewFromEntryHash (link-key reader) over a log containing the block", func() {
+			_, _ = ipfslog.NewFromEntryHash(ctx, st.API(), world.Identity(0), head.GetHash(), &ipfslog.LogOptions{ID: "verif-log", IO: linkIO}, &ipfslog.FetchOptions{})
 		})
 	}
 	nt := gerr == nil && (p.Shape != "arbitrary" || val.K == "map")
